@@ -649,6 +649,49 @@ def run(ctx: Ctx) -> int:
     ok = bool(good)
     ctx.oblige("C03.R9", ok, good[0] if good else arm, "settings of a sub-command that are not a Namespace are rejected where configs are applied" if ok else "the pass-through arm of _apply_actions stores whatever value a config gives under a sub-command's name: {\"fit\": 3} is kept and the first .clone() on it (sub-command action, merge_config, validate) raises AttributeError out of every parse method", fn=apa, construct="sub-command settings are a Namespace")
 
+    # ---------------- R11: foreign ValueErrors of the path probes and of the jsonnet binding --------------------------
+    # (1) os.access / os.stat / os.path.realpath raise ValueError('embedded null byte') for a string with a NUL; callers
+    #     of Path(...) that try a value as a path first only expect PathError (a TypeError).  In Path.__init__ every
+    #     such probe is preceded - on every path except the copy-constructor arm, which takes an already checked Path -
+    #     by a test for the NUL character that raises PathError (fix ea13886).
+    pin = ctx.func("_util:Path.__init__")
+    gpi = ctx.cfg(pin)
+    PROBES = {"access", "stat", "realpath", "lstat"}
+    probes = [c for c in calls_in(pin) if call_leaf(c) in PROBES and (dotted(c.func) or "").startswith("os.")]
+    ctx.floor("C03.R11-path-probes", len(probes), 10)
+    nul_tests = []
+    for i_ in [x for x in walk_local(pin) if isinstance(x, ast.If)]:
+        has_nul = any(isinstance(cmp_, ast.Compare) and isinstance(cmp_.ops[0], ast.In) and const_str(cmp_.left) == "\0" for cmp_ in ast.walk(i_.test))
+        rz = _body_raises(_branch_when(i_, True), ctx.noreturn)
+        if has_nul and rz is not None and isinstance(rz, ast.Raise) and isinstance(rz.exc, ast.Call) and call_leaf(rz.exc) == "PathError":
+            nul_tests.append(i_)
+    copy_arm = set()
+    for i_ in [x for x in walk_local(pin) if isinstance(x, ast.If)]:
+        t_, pos_ = _strip(i_.test)
+        if isinstance(t_, ast.Call) and call_leaf(t_) == "isinstance" and len(t_.args) == 2 and ast.unparse(t_.args[1]) == "Path":
+            copy_arm |= gpi.branch_edges(i_.test, "t" if pos_ else "f")
+    ok = bool(nul_tests) and gpi.dominates(gpi.cn([i_.test for i_ in nul_tests]), gpi.cn(probes), removed_edges=copy_arm)
+    ctx.oblige("C03.R11", ok, nul_tests[0] if nul_tests else probes[0], f"the {len(probes)} os probes of Path.__init__ run only on text without a NUL character (otherwise PathError)" if ok else "Path.__init__ hands text with a NUL character to os.access / os.stat: they raise ValueError('embedded null byte'), which the callers that try a value as a path first (ActionConfigFile, ActionParser sections) do not expect - parse_string('inner: \"a\\0b\"') raises a bare ValueError", fn=pin, construct="NUL rejected before the probes")
+    # (2) the jsonnet binding raises RuntimeError for jsonnet errors and ValueError for text it cannot take (NUL): both
+    #     are converted where the snippet is evaluated (fix 34a6256)
+    for fq, fn in list(repo.all_funcs()):
+        for c in [c for c in calls_in(fn) if call_leaf(c) == "evaluate_snippet" and enclosing_function(c) is fn]:
+            have_ = set()
+            for t, part in enclosing_trys(c):
+                if part == "body":
+                    for h in t.handlers:
+                        have_ |= set(handler_type_names(h))
+            ok = {"RuntimeError", "ValueError"} <= have_ or bool(have_ & {"Exception", "BaseException"})
+            if not ok and fq == "_loaders_dumpers:jsonnet_load":
+                # the loader of the jsonnet parser mode: ValueError is one of the exceptions that mode declares
+                # (get_loader_exceptions), so every load site already anticipates it (R5)
+                gle = ctx.func("_loaders_dumpers:get_loader_exceptions")
+                decl = [r for r in walk_local(gle) if isinstance(r, ast.Return) and any(pol and "jsonnet" in ast.unparse(t) for t, pol in guard_atoms(r, stop=gle)) and any(isinstance(n_, ast.Name) and n_.id == "ValueError" for n_ in ast.walk(r.value))]
+                if decl and "RuntimeError" in have_:
+                    ctx.oblige("C03.R11", True, c, "jsonnet_load: ValueError of the binding is a declared loader exception of the jsonnet mode", fn=fn, construct="jsonnet loader declares ValueError")
+                    continue
+            ctx.oblige("C03.R11", ok, c, "failures of the jsonnet binding (RuntimeError, ValueError) are converted" if ok else f"`evaluate_snippet` runs under handlers for {sorted(have_)} only: a jsonnet file with a NUL byte makes the binding raise ValueError, which leaves parse_args as it is", fn=fn, construct="jsonnet binding failures converted")
+
     # ---------------- R10: switches read from the environment are compared case-insensitively -------------------------
     n_envsw = 0
     for fq, fn in list(repo.all_funcs()):
